@@ -139,7 +139,15 @@ def write_replay(prop, rec, ob, idx):
     os.makedirs(d, exist_ok=True)
     safe = "".join(ch if ch.isalnum() else "_" for ch in rec["contract"] + "__" + ob["name"])[:120]
     p = os.path.join(d, "%s__%d.json" % (safe, idx))
-    json.dump({"property": prop, "contract": rec["contract"], "params": rec["params"],
+    api = None
+    from pyvc import contract as _c
+    cobj = _c.REG.get(rec["contract"])
+    if cobj is not None and getattr(cobj, "api", None):
+        try:
+            api = cobj.api(rec["params"], ob)
+        except Exception:
+            api = None
+    json.dump({"property": prop, "contract": rec["contract"], "params": rec["params"], "api": api,
                "obligation": ob["name"], "model": ob["model"], "verifier_output": ob["info"],
                "decisions": ob.get("decisions"),
                "how": "bin/check --replay %s   (runs the same contract natively on the counter-model)" % p},
@@ -277,12 +285,24 @@ def check_property(prop, tier, seed, jobs=None, only=None, verbose=False):
     for (cn, on), lst in sorted(groups.items()):
         c = reg[cn]
         # replay at most 3 counter-models per obligation name (first, middle, last of the parameter space)
-        picks = [lst[0]] + ([lst[len(lst) // 2]] if len(lst) > 2 else []) + ([lst[-1]] if len(lst) > 1 else [])
+        if c.replay == "api" and c.api:
+            def _has(x):
+                try:
+                    return c.api(x[0]["params"], x[1]) is not None
+                except Exception:
+                    return False
+            withapi = [x for x in lst if _has(x)]
+            lst = withapi + [x for x in lst if x not in withapi]
+            picks = withapi[:1] + ([withapi[len(withapi) // 2]] if len(withapi) > 2 else []) + (withapi[-1:] if len(withapi) > 1 else [])
+            if not picks:
+                picks = [lst[0]]
+        else:
+            picks = [lst[0]] + ([lst[len(lst) // 2]] if len(lst) > 2 else []) + ([lst[-1]] if len(lst) > 1 else [])
         replayed = {}
         for r, ob in picks:
             idx += 1
             p = write_replay(prop, r, ob, idx)
-            if c.replay == "concrete":
+            if c.replay == "concrete" or (c.replay == "api" and json.load(open(p)).get("api")):
                 ok, outp = native_replay(p)
                 replayed[id(ob)] = (p, ok, outp)
             else:
@@ -307,7 +327,7 @@ def check_property(prop, tier, seed, jobs=None, only=None, verbose=False):
             if pth is None:
                 idx += 1
                 p = write_replay(prop, r, ob, idx)
-                if c.replay == "concrete":
+                if c.replay == "concrete" or (c.replay == "api" and json.load(open(p)).get("api")):
                     ok, outp = native_replay(p)
                     if ok is not True:
                         disagreements.append((cn, on, p, outp[-2000:]))
